@@ -764,6 +764,10 @@ class Built(object):
             self.live_stats = getattr(self, 'live_stats', None) or {}
             self.live_stats.update({'u_tag': tag, 'u_n': 3})
             return self.live_stats
+        if b == 'ok_shares_with_data':
+            # the extractor returns a list the operation also recorded as a datum: ONE object, stored under the data and the metadata
+            rows = getattr(self, 'shared_rows', None) or ['row', 1, 'of the run']
+            return {'u_tag': tag, 'u_n': 3, 'u_rows': rows}
         if b == 'ok_calls_output':
             # the extractor (user code that runs after the operation has ended) uses an intercepted output itself, e.g. a metrics sink
             outs = self.prog['outputs']
@@ -820,6 +824,10 @@ class Built(object):
 
     def _run_body(self, target):
         ev = self.journal.add({'ev': 'op_body'})
+        if self.extractor_behaviour == 'ok_shares_with_data' and self.recorder is not None:
+            # the operation records a list as a datum that its metadata extractor will hand back later: ONE object in data and metadata
+            self.shared_rows = ['row', 1, 'of the run']
+            self.recorder.record_data('shared.rows', self.shared_rows)
         try:
             r = self._exec_steps(self.prog['body'])
         except BaseException as ex:  # noqa
@@ -861,6 +869,12 @@ class Built(object):
             # the operation fails with an ordinary service exception that carries a live resource (connection, lock) the serializer refuses
             self.fault_log.append((pos, fault))
             ex = UserError('injected at step %r' % (pos,))
+            ex.resource = Unencodable()
+            raise ex
+        if fault == 'raise_user_unencodable_noargs':
+            # ... and that was raised without any argument (raise PoolExhausted())
+            self.fault_log.append((pos, fault))
+            ex = UserError()
             ex.resource = Unencodable()
             raise ex
         if fault == 'raise_interrupt':
